@@ -281,4 +281,69 @@ theorem streamWindow_restored {g : Ghost} {s : Streams} (h : Inv true g s) {x : 
   · have := unclaimedThreshold_nonpos (f := x.recvFlow) (by omega)
     omega
 
+-- ===================================================================== release_closed_capacity
+
+theorem modStream_recv (s : Streams) (id : Nat) (f : Stream → Stream) : (s.modStream id f).recv = s.recv := by
+  unfold Streams.recv; rw [modStream_actions]
+
+/-- `clear_recv_buffer` on a stream with nothing in flight only empties the buffer -/
+theorem clearRecvBuffer_zero (s : Streams) (id : Nat) (b : Bool) (h0 : (s.stream id).inFlightRecvData = 0) :
+    (s.clearRecvBuffer id b).recv = s.recv ∧
+    (s.clearRecvBuffer id b).store.get? id = (s.store.get? id).map fun st => { st with pendingRecv := [] } := by
+  unfold Streams.clearRecvBuffer
+  dsimp only
+  cases hl : clearRecvBufferLoop (s.stream id).inFlightRecvData (s.stream id).pendingRecv 0 s.counts with
+  | mk tr c =>
+    have htr : tr ≤ (s.stream id).inFlightRecvData := by
+      have := clearRecvBufferLoop_le (s.stream id).inFlightRecvData (s.stream id).pendingRecv 0 s.counts (Nat.zero_le _)
+      rw [hl] at this; exact this
+    dsimp only
+    have : ¬ tr > 0 := by omega
+    rw [if_neg this]
+    exact ⟨modStream_recv _ _ _, get?_modStream _ id _ (fun _ => rfl)⟩
+
+/-- **`Recv::release_closed_capacity(stream)`, exactly**: everything the stream has in flight — `n`
+    octets — moves from `in_flight_data` to `available` on the connection, once; the window the
+    peer sees does not move; afterwards the stream has nothing in flight -/
+theorem releaseClosedCapacity_exact {full : Bool} {g : Ghost} {s : Streams} (h : Inv full g s) (id : Nat)
+    {x : Stream} (hx : s.store.get? id = some x) :
+    x.inFlightRecvData ≤ cI s ∧
+    cW (s.releaseClosedCapacity id) = cW s ∧
+    cA (s.releaseClosedCapacity id) = cA s + x.inFlightRecvData ∧
+    cI (s.releaseClosedCapacity id) = cI s - x.inFlightRecvData ∧
+    ∃ x', (s.releaseClosedCapacity id).store.get? id = some x' ∧ x'.inFlightRecvData = 0 ∧
+      x'.recvFlow = x.recvFlow ∧ x'.pendingRecv = [] := by
+  have hb := (h.infl_le (Int.le_refl 0) (get?_mem hx).1)
+  refine ⟨hb.1, ?_⟩
+  unfold Streams.releaseClosedCapacity
+  dsimp only
+  rw [stream_eq_of_get? hx]
+  split
+  · next hne =>
+    obtain ⟨hW, hA, hI⟩ := release_exact h x.inFlightRecvData true hb.1
+    have hst1 := (releaseConnectionCapacity_inv h x.inFlightRecvData true hb.1).2
+    have hg2 := get?_modStream (s.releaseConnectionCapacity x.inFlightRecvData true) id
+      (fun st => { st with inFlightRecvData := 0 }) (fun _ => rfl)
+    rw [hst1, hx] at hg2
+    have hr2 := modStream_recv (s.releaseConnectionCapacity x.inFlightRecvData true) id
+      (fun st => { st with inFlightRecvData := 0 })
+    generalize ((s.releaseConnectionCapacity x.inFlightRecvData true).modStream id fun st =>
+        { st with inFlightRecvData := 0 }) = s2 at hg2 hr2 ⊢
+    have h0 : (s2.stream id).inFlightRecvData = 0 := by rw [stream_eq_of_get? hg2]
+    obtain ⟨hr3, hg3⟩ := clearRecvBuffer_zero s2 id true h0
+    rw [hg2] at hg3
+    refine ⟨?_, ?_, ?_, _, hg3, rfl, rfl, rfl⟩
+    · unfold cW at *; rw [hr3, hr2]; exact hW
+    · unfold cA at *; rw [hr3, hr2]; exact hA
+    · unfold cI at *; rw [hr3, hr2]; exact hI
+  · next he =>
+    have he' : x.inFlightRecvData = 0 := by simpa using he
+    have h0 : (s.stream id).inFlightRecvData = 0 := by rw [stream_eq_of_get? hx]; exact he'
+    obtain ⟨hr3, hg3⟩ := clearRecvBuffer_zero s id true h0
+    rw [hx] at hg3
+    refine ⟨?_, ?_, ?_, _, hg3, he', rfl, rfl⟩
+    · unfold cW; rw [hr3]
+    · unfold cA; rw [hr3, he']; simp
+    · unfold cI; rw [hr3, he']; simp
+
 end H2V.Lemmas.ConnRecvP
